@@ -21,14 +21,20 @@ def run_property(prop, tier='quick', ctx=None, write=True, quiet=False):
     spec = PROPS[prop]
     ctx = ctx or Ctx()
     results = []
+    analysis_errors = []
     for rid in spec['rules']:
         fn = RULES[rid]
-        r = fn(ctx)
-        if r.instances == 0:
-            raise AnalysisError(f"rule {rid} examined zero instances (vacuous pass refused)")
-        floor = spec.get('floors', {}).get(rid)
-        if floor is not None and r.instances < floor:
-            raise AnalysisError(f"rule {rid} examined {r.instances} instances, below the confirmed floor {floor}")
+        try:
+            r = fn(ctx)
+            if r.instances == 0:
+                raise AnalysisError(f"rule {rid} examined zero instances (vacuous pass refused)")
+            floor = spec.get('floors', {}).get(rid)
+            if floor is not None and r.instances < floor:
+                raise AnalysisError(f"rule {rid} examined {r.instances} instances, below the confirmed floor {floor}")
+        except AnalysisError as e:
+            # one rule that cannot vouch does not silence what the other rules of the property do find
+            analysis_errors.append(f'{rid}: {e}')
+            continue
         results.append(r)
     findings = [f for r in results for f in r.findings if _applies(prop, f)]
     hit, new, stale = report.classify(prop, findings)
@@ -49,6 +55,10 @@ def run_property(prop, tier='quick', ctx=None, write=True, quiet=False):
         lines.append(f"VIOLATION property={prop} replay={p}")
         lines.append(f"  [{f.rule}] {f.where}: {f.construct}")
         lines.append(f"      {f.message} ({f.loc})")
+    if analysis_errors and not new:
+        raise AnalysisError('; '.join(analysis_errors))
+    for ae in analysis_errors:
+        lines.append(f'ANALYSIS-ERROR property={prop} (rule could not vouch; the violations above stand) {ae}')
     if stale:
         # a known entry that no longer matches anything: the file must be kept current
         raise AnalysisError("stale known-finding entries (no longer reported by any rule): " +
